@@ -134,6 +134,8 @@ struct ArcSt {
     forgotten: usize,
     /// events of the handle drops so far (release points)
     drop_events: Vec<usize>,
+    /// handles handed back by finished threads
+    returned: usize,
 }
 
 #[derive(Clone, Debug)]
@@ -243,7 +245,7 @@ impl<'p> Machine<'p> {
                             held[o as usize] += 1;
                         }
                     }
-                    ArcSt { count: held.iter().sum(), payload_dropped: false, held, drops: vec![0; nt], forgotten: 0, drop_events: Vec::new() }
+                    ArcSt { count: held.iter().sum(), payload_dropped: false, held, drops: vec![0; nt], forgotten: 0, drop_events: Vec::new(), returned: 0 }
                 })
                 .collect(),
             track_live: vec![vec![false; p.n_track as usize]; nt],
@@ -418,6 +420,8 @@ impl<'p> Machine<'p> {
                 | Op::Alloc { .. }
                 | Op::Dealloc { .. }
                 | Op::ArcForget { .. }
+                | Op::ArcReturn { .. }
+                | Op::ArcCollect { .. }
                 | Op::ArcRawRoundTrip { .. }
                 | Op::StopExploring
                 | Op::Explore
@@ -1117,6 +1121,16 @@ impl<'p> Machine<'p> {
                 }
             }
             Op::ArcGive { .. } => unimplemented!(),
+            Op::ArcReturn { r } => {
+                let st = &mut self.arc[r as usize];
+                st.returned += st.held[t];
+                st.held[t] = 0;
+            }
+            Op::ArcCollect { r } => {
+                let st = &mut self.arc[r as usize];
+                st.held[t] += st.returned;
+                st.returned = 0;
+            }
             Op::TrackNew { k } => self.track_live[t][k as usize] = true,
             Op::TrackDrop { k } => self.track_live[t][k as usize] = false,
             Op::Alloc { k } => self.block_live[t][k as usize] = true,
